@@ -22,7 +22,7 @@ BUDGETS = {
     "C07": {"quick": {"procs": 32, "runs": 25}, "thorough": {"procs": 192, "runs": 150}},
     "C09": {"quick": {"procs": 32, "runs": 6}, "thorough": {"procs": 256, "runs": 60}},
     "C10": {"quick": {"procs": 32, "runs": 12}, "thorough": {"procs": 192, "runs": 100}},
-    "C11": {"quick": {"procs": 32, "runs": 10}, "thorough": {"procs": 192, "runs": 60}},
+    "C11": {"quick": {"procs": 32, "runs": 40}, "thorough": {"procs": 192, "runs": 60}},
     "C12": {"quick": {"procs": 32, "runs": 40}, "thorough": {"procs": 256, "runs": 300}},
     "C13": {"quick": {"procs": 32, "runs": 20}, "thorough": {"procs": 192, "runs": 150}},
     "C14": {"quick": {"procs": 32, "runs": 15}, "thorough": {"procs": 256, "runs": 120}},
